@@ -1,6 +1,5 @@
 import UtilModel.Core.LTSHash
-import UtilModel.Promise.Props
-import UtilModel.Promise.Monitors
+import UtilModel.Promise.SimCur
 open UtilModel
 #print axioms UtilModel.acceptsH_sound
 #print axioms UtilModel.accepted_satisfies
@@ -21,3 +20,9 @@ open UtilModel
 #print axioms Promise.witnessD9_run
 #print axioms Promise.container_channel_clause_false
 #print axioms Promise.container_channel_clause_partial
+#print axioms Promise.C11why_obs
+#print axioms Promise.C11set_obs
+#print axioms Promise.C11live_obs
+#print axioms Promise.C11cur_obs
+#print axioms Promise.C11ch_obs_false
+#print axioms Promise.slot_mem_candidates
